@@ -187,6 +187,7 @@ def run(M, c):
     M.current = c
     if k == "years":
         for y in range(1, 10000):
+            M.progress()
             vals = []
             for tag, m in impls:
                 vals.append((m.is_leap(y), m.is_long_year(y), m.days_in_year(y)))   # contracts judge each
@@ -197,6 +198,7 @@ def run(M, c):
     if k == "dates":
         n = 0
         for o in range(c["lo"], c["hi"] + 1):
+            M.progress()
             d = dt.date.fromordinal(o)
             monthend = d.day == 1 or d.day >= 28
             if (o + c["phase"]) % c["stride"] and not monthend:
@@ -218,6 +220,7 @@ def run(M, c):
         lo = c["chunk"] * per
         n = 0
         for di in range(lo, min(days, lo + per)):
+            M.progress()
             if (di + c["phase"]) % c["stride"]:
                 continue
             base = LO + di * 86400
@@ -236,6 +239,7 @@ def run(M, c):
 
         r = random.Random(c["seed"])
         for i in range(c["n"]):
+            M.progress()
             ts = r.choice((r.randrange(LO, HI), r.randrange(-10**6, 10**6) * 86400 + r.choice((-1, 0, 1)), r.randrange(-10**9, 10**9)))
             off = r.choice((0, r.randrange(-86399, 86400)))
             if not LO <= ts + off <= HI:
